@@ -1,0 +1,338 @@
+//go:build verif
+
+// Contracts for the deductive verifier in /verif (govc). Comment-only file.
+package parser2
+
+// ---------------------------------------------------------------- tokenizer (C04: total, terminating)
+//
+// rem(t): what is left to scan, the variant of every scanner loop: the unread text plus the one rune read-ahead.
+
+//@ predicate rem(t *Tokenizer) = len(t.str) + ite(t.isLast, 1, 0)
+
+//@ func (t *Tokenizer) peek
+//@   property C04
+//@   safety C04
+//@   ensures[cached] old(t.isLast) ==> result == old(t.last) && t.isLast && t.str == old(t.str) && t.last == old(t.last)
+//@   ensures[progress] !old(t.isLast) ==> (result == EOF && !t.isLast && len(t.str) <= old(len(t.str))) || (t.isLast && result == t.last && len(t.str) < old(len(t.str)))
+//@   assigns t.str, t.last, t.isLast, t.line
+//@   loop 1 invariant !t.isLast && len(t.str) < old(len(t.str))
+//@   loop 1 decreases len(t.str)
+//@   loop 2 invariant !t.isLast && len(t.str) < old(len(t.str))
+//@   loop 2 decreases len(t.str)
+
+//@ func (t *Tokenizer) consume
+//@   property C04
+//@   safety C04
+//@   ensures !t.isLast && len(t.str) <= old(len(t.str)) && (old(t.isLast) ==> t.str == old(t.str))
+//@   assigns t.str, t.last, t.isLast, t.line
+
+//@ func (t *Tokenizer) next
+//@   property C04
+//@   safety C04
+//@   ensures[progress] result == EOF || rem(t) < old(rem(t))
+//@   ensures[monotone] rem(t) <= old(rem(t)) && !t.isLast
+//@   assigns t.str, t.last, t.isLast, t.line
+
+//@ func (t *Tokenizer) unread
+//@   property C04
+//@   ensures t.isLast && t.str == old(t.str) && t.last == old(t.last)
+//@   assigns t.isLast
+
+// readSkip terminates because every iteration takes a rune or stops at the end-of-input sentinel
+//@ func (t *Tokenizer) readSkip
+//@   property C04
+//@   safety C04
+//@   pure valid
+//@   requires valid != nil
+//@   ensures rem(t) <= old(rem(t))+1 && t.isLast
+//@   assigns t.str, t.last, t.isLast, t.line
+//@   loop 1 invariant rem(t) <= old(rem(t))
+//@   loop 1 decreases rem(t)
+
+//@ func (t *Tokenizer) readStr
+//@   property C04
+//@   safety C04
+//@   ensures rem(t) <= old(rem(t))
+//@   assigns t.str, t.last, t.isLast, t.line
+//@   loop 1 invariant rem(t) <= old(rem(t))
+//@   loop 1 decreases rem(t)
+
+// the operator detector is a pure function of the rune; at the end-of-input sentinel it never continues
+//@ type-contract OperatorDetector
+//@   option params=r
+//@   requires self != nil
+//@   ensures r == EOF ==> result0 == nil
+//@   assigns nothing
+
+//@ func (t *Tokenizer) parseOperator
+//@   property C04
+//@   safety C04
+//@   requires t.operatorDetector != nil
+//@   assigns t.str, t.last, t.isLast, t.line
+//@   loop 1 invariant d != nil && rem(t) <= old(rem(t))
+//@   loop 1 decreases rem(t)
+
+// the two-token look-ahead buffer, against the token stream
+//@ func (t *Tokenizer) forward
+//@   property C03 C04
+//@   safety C04
+//@   requires 1 <= i && i <= 2 && bufOK(t)
+//@   ensures[buffer] bufOK(t) && pos(t) == old(pos(t))
+//@   ensures[token] result == streamTok(t, pos(t)+i-1)
+//@   assigns t.token, t.tokenAvail, cpos(t)
+//@   loop 1 invariant bufOK(t) && pos(t) == old(pos(t))
+
+//@ func (t *Tokenizer) Next
+//@   property C03 C04
+//@   safety C04
+//@   requires bufOK(t)
+//@   ensures[buffer] bufOK(t)
+//@   ensures[token] result == streamTok(t, old(pos(t)))
+//@   ensures[advance] pos(t) == ite(old(pos(t)) < ntoks(t), old(pos(t))+1, old(pos(t)))
+//@   assigns t.token, t.tokenAvail, cpos(t)
+
+// the scanner goroutine: panic-freedom only (channel sends are not modelled; termination of its main loop additionally
+// needs "a matcher's continuation accepts the rune its start function accepted", which is not under contract)
+//@ type-contract Matcher
+//@   option params=r
+//@   requires self != nil
+//@   ensures result1 ==> result0 != nil
+//@   assigns nothing
+
+//@ func (t *Tokenizer) run
+//@   property C04
+//@   safety C04
+//@   requires t.number != nil && t.identifier != nil && t.operatorDetector != nil
+
+//@ func (t *Tokenizer) read
+//@   property C04
+//@   safety C04
+//@   pure valid
+//@   requires valid != nil
+//@   assigns t.str, t.last, t.isLast, t.line
+
+// ---------------------------------------------------------------- S2: the token stream seen by the parser (C03, C04, C12)
+//
+// tokAt(t, i), i < ntoks(t): the tokens the scanner goroutine sends, in order; cpos(t): how many the parser side has
+// received from the channel. The two-token buffer holds the stream at [pos, pos+tokenAvail).
+
+//@ ghost func tokAt(t *Tokenizer, i int) Token
+//@ ghost func ntoks(t *Tokenizer) int
+//@ ghost var cpos(t *Tokenizer) int
+//@ predicate pos(t *Tokenizer) = cpos(t) - t.tokenAvail
+//@ predicate streamTok(t *Tokenizer, i int) = ite(i < ntoks(t), tokAt(t, i), TokenEof)
+//@ predicate bufOK(t *Tokenizer) = 0 <= t.tokenAvail && t.tokenAvail <= 2 && t.tokenAvail <= cpos(t) && cpos(t) <= ntoks(t) \
+//@      && (forall j in 0..t.tokenAvail :: t.token[j] == tokAt(t, cpos(t)-t.tokenAvail+j))
+
+//@ channel Tokenizer.tok
+//@   value tokAt(self, cpos(self))
+//@   ok cpos(self) < ntoks(self)
+//@   effect cpos(self) = cpos(self)+1
+
+// ---------------------------------------------------------------- the precedence parser (C03)
+//
+// Levels: parseOp(k) is level k (k = index in the operator table), parseUnary is level len(operators), everything
+// below is "infinitely" tight. glvl(tokenizer): the level at which the last operand was parsed.
+
+//@ ghost var glvl(t *Tokenizer) int
+//@ ghost func plvl(f any) int
+//@ predicate unaryOK(p any) = forall k string :: haskey(p.unary, k) ==> p.unary[k] != nil && -1 <= p.unary[k].opPos && p.unary[k].opPos < len(p.operators)
+
+// a parse function: keeps the buffer consistent, never moves backwards, consumes at least one token on success and
+// returns a tree parsed at its own level or tighter
+//@ type-contract parserFunc
+//@   option params=tokenizer,constants
+//@   requires self != nil && tokenizer != nil && bufOK(tokenizer)
+//@   ensures bufOK(tokenizer) && pos(tokenizer) >= old(pos(tokenizer))
+//@   ensures result1 == nil ==> result0 != nil && pos(tokenizer) > old(pos(tokenizer)) && glvl(tokenizer) >= plvl(self)
+//@   assigns tokenizer.token, tokenizer.tokenAvail, cpos(tokenizer), glvl(tokenizer), any []string, any *[]string, any []AST, any []listMap.listMapEntry[AST], any []Case[V]
+
+//@ func (p *Parser[V]) nextParserCall
+//@   property C03
+//@   safety C04
+//@   requires 0 <= op && op < len(p.operators) && unaryOK(p)
+//@   ensures[level] result != nil && plvl(result) == op+1
+//@   assigns nothing
+//@   closure-spec "return p.parseOp(tokenizer, op+1, constants)" as parserFunc attr plvl(self) = op+1 assume 0 <= op+1 && op+1 < len(p.operators) && unaryOK(p)
+//@   closure-spec "$bound:parseUnary" as parserFunc attr plvl(self) = len(p.operators) assume unaryOK(p)
+
+//@ func (p *Parser[V]) parseOp
+//@   property C03
+//@   safety C04
+//@   requires tokenizer != nil && bufOK(tokenizer) && 0 <= op && op < len(p.operators) && unaryOK(p)
+//@   ensures[buffer] bufOK(tokenizer) && pos(tokenizer) >= old(pos(tokenizer))
+//@   ensures[progress] result1 == nil ==> result0 != nil && pos(tokenizer) > old(pos(tokenizer))
+//@   ensures[level] result1 == nil ==> glvl(tokenizer) >= op
+//@   ensures[maximal] result1 == nil ==> !(streamTok(tokenizer, pos(tokenizer)).typ == tOperate && streamTok(tokenizer, pos(tokenizer)).image == old(p.operators[op]))
+//@   assigns tokenizer.token, tokenizer.tokenAvail, cpos(tokenizer), glvl(tokenizer), any []string, any *[]string, any []AST, any []listMap.listMapEntry[AST], any []Case[V]
+//@   loop 1 invariant bufOK(tokenizer) && pos(tokenizer) > old(pos(tokenizer)) && a != nil && glvl(tokenizer) >= op+1 && next != nil && plvl(next) == op+1
+
+//@ func (p *Parser[V]) parseUnary
+//@   property C03
+//@   safety C04
+//@   requires tokenizer != nil && bufOK(tokenizer) && unaryOK(p)
+//@   ensures[buffer] bufOK(tokenizer) && pos(tokenizer) >= old(pos(tokenizer))
+//@   ensures[progress] result1 == nil ==> result0 != nil && pos(tokenizer) > old(pos(tokenizer))
+//@   ensures[level] result1 == nil ==> glvl(tokenizer) >= len(p.operators)
+//@   assert[operand-level] "p.parseOp(tokenizer, un.opPos+1, constants)" un.opPos+1 >= 1 && un.opPos+1 < len(p.operators)
+//@   assert-after[operand-parsed-above] "p.parseOp(tokenizer, un.opPos+1, constants)" callres1 == nil ==> glvl(tokenizer) >= un.opPos+1
+//@   ghost-return glvl(tokenizer) = ite(glvl(tokenizer) < len(p.operators), len(p.operators), glvl(tokenizer))
+//@   assigns tokenizer.token, tokenizer.tokenAvail, cpos(tokenizer), glvl(tokenizer), any []string, any *[]string, any []AST, any []listMap.listMapEntry[AST], any []Case[V]
+
+//@ func (p *Parser[V]) parseExpression
+//@   property C03
+//@   safety C04
+//@   requires tokenizer != nil && bufOK(tokenizer) && unaryOK(p)
+//@   ensures[buffer] bufOK(tokenizer) && pos(tokenizer) >= old(pos(tokenizer))
+//@   ensures[progress] result1 == nil ==> result0 != nil && pos(tokenizer) > old(pos(tokenizer))
+//@   ensures[level] result1 == nil ==> glvl(tokenizer) >= 0
+//@   assigns tokenizer.token, tokenizer.tokenAvail, cpos(tokenizer), glvl(tokenizer), any []string, any *[]string, any []AST, any []listMap.listMapEntry[AST], any []Case[V]
+
+// the level of everything below the operators
+//@ predicate INF() = 1000000
+
+// stream axiom: the scanner never sends an end-of-input token (it closes the channel instead); TokenEof is what the
+// parser side synthesises behind the last token
+//@ axiom eof_only_behind_stream: forall t *Tokenizer, i int :: 0 <= i && i < ntoks(t) ==> tokAt(t, i).typ != tEof
+
+//@ type-contract Identifiers
+//@   option params=name
+//@   assigns any []string, any *[]string
+
+//@ func (c Identifiers[V]) AddArgs
+//@   property C03
+//@   ensures result != nil
+//@   assigns nothing
+//@   trusted
+//@ func (c Identifiers[V]) AddThis
+//@   property C03
+//@   ensures result != nil
+//@   assigns nothing
+//@   trusted
+//@ func (c Identifiers[V]) add
+//@   property C03
+//@   ensures result != nil
+//@   assigns nothing
+//@   trusted
+
+// Optimize rewrites children of AST nodes in place; the nodes of a parse are objects of that parse, so no caller of
+// a parse function can observe it in anything it held before (the frame of the parse functions excludes AST nodes)
+//@ func Optimize
+//@   property C03
+//@   ensures ast != nil ==> astRet != nil
+//@   assigns nothing
+//@   trusted
+
+//@ interface-contract NumberParser.ParseNumber
+//@   option no-impl-check
+//@   assigns nothing
+//@ interface-contract StringConverter.FromString
+//@   option no-impl-check
+//@   assigns nothing
+
+//@ func (p *Parser[V]) parseNonOperator
+//@   property C03
+//@   safety C04
+//@   requires tokenizer != nil && bufOK(tokenizer) && unaryOK(p)
+//@   ensures[buffer] bufOK(tokenizer) && pos(tokenizer) >= old(pos(tokenizer))
+//@   ensures[progress] result1 == nil ==> result0 != nil && pos(tokenizer) > old(pos(tokenizer))
+//@   ensures[level] result1 == nil ==> glvl(tokenizer) >= INF()
+//@   ghost-return glvl(tokenizer) = INF()
+//@   loop 1 invariant bufOK(tokenizer) && pos(tokenizer) > old(pos(tokenizer)) && expression != nil
+//@   assigns tokenizer.token, tokenizer.tokenAvail, cpos(tokenizer), glvl(tokenizer), any []string, any *[]string, any []AST, any []listMap.listMapEntry[AST], any []Case[V]
+
+//@ func (p *Parser[V]) parseLiteral
+//@   property C03
+//@   safety C04
+//@   requires tokenizer != nil && bufOK(tokenizer) && unaryOK(p)
+//@   ensures[buffer] bufOK(tokenizer) && pos(tokenizer) >= old(pos(tokenizer))
+//@   ensures[progress] result1 == nil ==> result0 != nil && pos(tokenizer) > old(pos(tokenizer))
+//@   ensures[level] result1 == nil ==> glvl(tokenizer) >= INF()
+//@   ghost-return glvl(tokenizer) = INF()
+//@   loop 1 invariant bufOK(tokenizer) && pos(tokenizer) > old(pos(tokenizer))
+//@   assigns tokenizer.token, tokenizer.tokenAvail, cpos(tokenizer), glvl(tokenizer), any []string, any *[]string, any []AST, any []Case[V], any []listMap.listMapEntry[AST]
+
+//@ func (p *Parser[V]) parseLet
+//@   property C03
+//@   safety C04
+//@   requires tokenizer != nil && bufOK(tokenizer) && unaryOK(p)
+//@   ensures[buffer] bufOK(tokenizer) && pos(tokenizer) >= old(pos(tokenizer))
+//@   ensures[progress] result1 == nil ==> result0 != nil && pos(tokenizer) > old(pos(tokenizer))
+//@   ensures[level] result1 == nil ==> glvl(tokenizer) >= 0
+//@   assigns tokenizer.token, tokenizer.tokenAvail, cpos(tokenizer), glvl(tokenizer), any []string, any *[]string, any []AST, any []listMap.listMapEntry[AST], any []Case[V]
+
+//@ func (p *Parser[V]) parseArgs
+//@   property C03
+//@   safety C04
+//@   requires tokenizer != nil && bufOK(tokenizer) && unaryOK(p)
+//@   ensures[buffer] bufOK(tokenizer) && pos(tokenizer) >= old(pos(tokenizer))
+//@   requires closeList != tEof
+//@   ensures[closer-consumed] result1 == nil ==> pos(tokenizer) > old(pos(tokenizer)) && streamTok(tokenizer, pos(tokenizer)-1).typ == closeList
+//@   assigns tokenizer.token, tokenizer.tokenAvail, cpos(tokenizer), glvl(tokenizer), any []string, any *[]string, any []AST, any []listMap.listMapEntry[AST], any []Case[V]
+//@   loop 1 invariant bufOK(tokenizer) && pos(tokenizer) >= old(pos(tokenizer))
+
+//@ func (p *Parser[V]) parseMap
+//@   property C03
+//@   safety C04
+//@   requires tokenizer != nil && bufOK(tokenizer) && unaryOK(p)
+//@   ensures[buffer] bufOK(tokenizer) && pos(tokenizer) >= old(pos(tokenizer))
+//@   ensures[closer-consumed] result1 == nil ==> result0 != nil && pos(tokenizer) > old(pos(tokenizer)) && streamTok(tokenizer, pos(tokenizer)-1).typ == tCloseCurly
+//@   assigns tokenizer.token, tokenizer.tokenAvail, cpos(tokenizer), glvl(tokenizer), any []string, any *[]string, any []AST, any []listMap.listMapEntry[AST]
+//@   loop 1 invariant bufOK(tokenizer) && pos(tokenizer) >= old(pos(tokenizer))
+
+//@ func (p *Parser[V]) parseIdentList
+//@   property C03
+//@   safety C04
+//@   requires tokenizer != nil && bufOK(tokenizer)
+//@   ensures[buffer] bufOK(tokenizer) && pos(tokenizer) >= old(pos(tokenizer))
+//@   ensures[closer-consumed] result1 == nil ==> pos(tokenizer) > old(pos(tokenizer)) && streamTok(tokenizer, pos(tokenizer)-1).typ == tClose
+//@   assigns tokenizer.token, tokenizer.tokenAvail, cpos(tokenizer), any []string
+//@   loop 1 invariant bufOK(tokenizer) && pos(tokenizer) >= old(pos(tokenizer))
+
+// ---------------------------------------------------------------- Parse: all tokens consumed (C03), goroutine ends (C12)
+//
+// The scanner goroutine blocks in a channel send until the parser side receives; it ends exactly when all ntoks tokens
+// have been received (then it closes the channel and returns): running(t) <==> cpos(t) < ntoks(t).
+
+//@ ghost var lastTok(p any) *Tokenizer
+
+//@ func (t *Tokenizer) Start
+//@   property C03 C12
+//@   ensures result == t && cpos(t) == 0 && ntoks(t) >= 0 && t.tokenAvail == old(t.tokenAvail)
+//@   assigns cpos(t)
+//@   trusted
+
+//@ func (t *Tokenizer) drain
+//@   property C12
+//@   safety C04
+//@   requires 0 <= cpos(t) && cpos(t) <= ntoks(t)
+//@   ensures[all-received] cpos(t) == ntoks(t)
+//@   assigns cpos(t)
+//@   loop 1 invariant 0 <= cpos(t) && cpos(t) <= ntoks(t)
+//@   loop 1 decreases ntoks(t) - cpos(t)
+
+//@ func NewOperatorDetector
+//@   property C03
+//@   ensures result != nil
+//@   assigns nothing
+//@   trusted
+//@ func (t *Tokenizer) SetKeyWords
+//@   property C03
+//@   ensures result == t && t.tokenAvail == old(t.tokenAvail)
+//@   assigns nothing
+//@   trusted
+//@ func prettyPrintAST
+//@   property C03
+//@   assigns nothing
+//@   trusted
+
+//@ func (p *Parser[V]) Parse
+//@   property C03 C12
+//@   safety C04
+//@   requires unaryOK(p)
+//@   loop 1 invariant unaryOK(p)
+//@   loop 2 invariant unaryOK(p) && 0 <= rangeidx && rangeidx <= len(p.operators)
+//@   loop 3 invariant unaryOK(p) && 0 <= i && i < len(p.operators)
+//@   ensures[eof-checked C03] err == nil ==> pos(lastTok(p)) == ntoks(lastTok(p))
+//@   ensures[goroutine-ended C12] cpos(lastTok(p)) == ntoks(lastTok(p))
+//@   ghost-set "Start()" lastTok(p) = tokenizer
